@@ -379,8 +379,8 @@ func checkHiddenInputs(p *core.Program, r *core.Report, entries []*ssa.Function)
 		isDraw[f] = true
 	}
 	for _, e := range entries {
-		if e.Name() == "Generate" || e.Parent() != nil || e.Name() == "NewSFFunction" {
-			continue
+		if e.Name() == "Generate" || e.Parent() != nil || e.Name() == "NewSFFunction" || isSeparatorSignature(p, e.Signature) {
+			continue // generating entry points (a function of the separator-function type generates a separator)
 		}
 		// walk the call graph from e, not crossing dynamic calls of SFFunction type whose #0 result is unused
 		seen := map[*ssa.Function]bool{}
@@ -431,4 +431,14 @@ func sepStringUnused(c *ssa.Call) bool {
 		}
 	}
 	return true
+}
+
+// isSeparatorSignature: the signature of the library's separator-function type (func() (string, FloatE)).
+func isSeparatorSignature(p *core.Program, sig *types.Signature) bool {
+	obj := p.LibPkg.Types.Scope().Lookup("SFFunction")
+	if obj == nil {
+		return false
+	}
+	want, ok := obj.Type().Underlying().(*types.Signature)
+	return ok && sig.Recv() == nil && types.Identical(want, sig)
 }
